@@ -68,6 +68,16 @@ CHECKS = {
         note="Coq kernel + vm_compute; models WriteCsv.v + reader models; H_float_roundtrip, H_dt_roundtrip, H_native sampled per case; no display formats.",
         design="DESIGN.md section 5/C01",
     ),
+    "C08": dict(
+        text="Theorems: table_to_json_data and the readers' JsonData carry name, destinations, columns in table order with their own units, and every leaf is one of the five JSON leaf kinds and never NaN; null exactly for missing values. Correspondence of table_to_json (on the python scalars list(df[col]) yields) and of json_data_to_table (grid of native cells through the table parser) with the implementation; the oracle checks exact leaf types, strict json.dumps, and the full round trip through text.",
+        note="Coq kernel + vm_compute; models Json.v, ParseTable.v; H_json_codec, H_float_roundtrip, H_dt_roundtrip; the layout half of the round-trip theorem is shared with C01/C10 (see Properties).",
+        design="DESIGN.md section 5/C08",
+    ),
+    "C09": dict(
+        text="Theorems: for every list of table dimensions, orientation and number of separator lines the styler addresses exactly the rows and cells the writer wrote; rows written per table. The worksheet model (appended rows, sep_lines empty rows, None padding) is compared cell by cell with the grid openpyxl loads back, the reader model is run on that grid, and the oracle checks the real write_excel/read_excel round trip per sheet incl. origin sheet names, styles, sep_lines, path/BytesIO and sheet-name patterns.",
+        note="Coq kernel + vm_compute; models WriteXl.v + reader models; H_openpyxl_store; xlsxwriter backend not installed and not covered; the table-level round-trip statement rests on the shared layout lemmas (see Properties).",
+        design="DESIGN.md section 5/C09",
+    ),
 }
 ALL = [f"C{n:02d}" for n in range(1, 21)]
 NOT_YET = {p: "check not built yet in this revision (planned, see DESIGN.md section 5); not a claim that the technique cannot apply" for p in ALL if p not in CHECKS}
